@@ -355,7 +355,7 @@ def seq_cases():
                     iv = (0.5, 1, 2.5, 5)[(n + len(seq[0])) % 4]
                     c = {"attempts": att, "interval": iv, "external": ext, "on_reconnect": (n + len(stop)) % 2 == 0, "via_global": (len(seq[0]) + len(seq[-1]) + len(stop)) % 3 == 0}
                     if stop == "server-close":
-                        att.append({"kind": "server-close", "after": 2.0, "close_body": (None, "empty", "code-only")[(n + len(seq[0])) % 3]})
+                        att.append({"kind": "server-close", "after": 2.0, "code": (1000, 1001, 1008, 1011, 1012, 1013, 1014, 3000, 4999)[(n * 3 + len(seq[-1])) % 9], "close_body": (None, "empty", "code-only")[(n + len(seq[0])) % 3]})
                     else:
                         att.append({"kind": "stay"})
                         # close 1.3 s after the last connection is up (computed from the model below)
@@ -398,7 +398,7 @@ def cases(draw):
          "secure": draw(st.integers(0, 3)) == 0}
     stop = draw(st.sampled_from(["server-close", "app-close", "app-close-any"]))
     if stop == "server-close":
-        att.append({"kind": "server-close", "after": draw(st.sampled_from([0.0, 0.5, 3.0])), "code": draw(st.sampled_from([1000, 1001, 4000])), "hs_delay": 0.0,
+        att.append({"kind": "server-close", "after": draw(st.sampled_from([0.0, 0.5, 3.0])), "code": draw(st.sampled_from([1000, 1001, 4000, 1002, 1003, 1007, 1008, 1009, 1010, 1011, 1012, 1013, 1014, 3000, 4999])), "hs_delay": 0.0,
                     "close_body": draw(st.sampled_from([None, None, "empty", "code-only"]))})
     else:
         att.append({"kind": "stay", "hs_delay": 0.0})
